@@ -7,9 +7,11 @@ import os
 import random
 import signal
 import tempfile
+import zlib
 from pathlib import PurePosixPath
 
 from streamflow.config.config import WorkflowConfig
+from streamflow.config.validator import SfValidator
 from streamflow.core.exception import WorkflowDefinitionException
 from streamflow.deployment.utils import get_binding_config
 
@@ -36,6 +38,15 @@ def time_limit(seconds: int):
     finally:
         signal.alarm(0)
         signal.signal(signal.SIGALRM, old)
+
+
+_VALIDATOR = []
+
+
+def _validator():
+    if not _VALIDATOR:
+        _VALIDATOR.append(SfValidator())
+    return _VALIDATOR[0]
 
 
 def o(s):  # Optional[str] -> protocol
@@ -77,7 +88,8 @@ def gen_case(rng: random.Random, search: bool):
     cyc = rng.random() < 0.3
     deps = {}
     for i, n in enumerate(dep_names):
-        d = {"type": rng.choice(["docker", "ssh", "local", "slurm"]), "config": {}}
+        ty = rng.choice(["docker", "ssh", "local", "slurm"])
+        d = {"type": ty, "config": {"docker": {"image": "img"}, "ssh": {"nodes": ["h"], "username": "u"}}.get(ty, {})}
         if rng.random() < 0.35:
             d["workdir"] = rng.choice(WORKDIRS)
         r = rng.random()
@@ -103,16 +115,18 @@ def gen_case(rng: random.Random, search: bool):
             path = "/"
         if rng.random() < 0.03:
             path = gen_path(rng, absolute=False)
-        nt = 1 if rng.random() < 0.6 else rng.randint(1, 3)
+        nt = 1 if rng.random() < 0.6 or (kind == "port" and rng.random() < 0.93) else rng.randint(1, 3)
         targets = []
         for _ in range(nt):
             t = {"deployment": rng.choice(dep_names), "locations": rng.randint(1, 99)}
-            if rng.random() < (0.9 if kind == "port" else 0.3):
+            if rng.random() < 0.06:        # deprecated spellings still accepted by get_binding_config
+                t = {"model": t["deployment"], "resources": t["locations"]}
+            if rng.random() < (0.97 if kind == "port" else 0.3):
                 t["workdir"] = rng.choice(WORKDIRS)
             if rng.random() < 0.2:
                 t["service"] = "svc"
             targets.append(t)
-        as_list = nt > 1 or rng.random() < 0.2
+        as_list = nt > 1 or rng.random() < (0.03 if kind == "port" else 0.2)
         b = {kind: path, "target": targets if as_list else targets[0]}
         r = rng.random()
         if r < 0.15:
@@ -164,6 +178,14 @@ CORPUS = [
 # ------------------------------------------------------------------------------------------------
 # the property's own oracle (strings and dicts only)
 # ------------------------------------------------------------------------------------------------
+def tdep(t):
+    return t["deployment"] if "deployment" in t else t["model"]
+
+
+def tloc(t):
+    return t["locations"] if "locations" in t else t.get("resources", 1)
+
+
 def wraps_name(d):
     w = d.get("wraps")
     return None if w is None else (w if isinstance(w, str) else w["deployment"])
@@ -187,7 +209,7 @@ def spec_workdir(deps, target):
     own = target.get("workdir")
     if own:
         return own
-    cur = target["deployment"]
+    cur = tdep(target)
     inh = None
     for _ in range(len(deps) + 1):
         d = deps[cur]
@@ -200,7 +222,7 @@ def spec_workdir(deps, target):
         cur = w
     if inh:
         return inh
-    return "<localtmp>/streamflow" if deps[target["deployment"]]["type"] == "local" else "/tmp/streamflow"
+    return "<localtmp>/streamflow" if deps[tdep(target)]["type"] == "local" else "/tmp/streamflow"
 
 
 def spec_binding(bindings, kind, qparts):
@@ -269,12 +291,27 @@ class C28(Property):
                   "correspondence check (no table/guard to translate)")
     assumptions = ["deployment names are distinct (dict keys); the StreamFlow file passed schema validation or is given as a dict "
                    "of the same shape"]
+    quick_budget_s = 480          # generous: the machine may be heavily loaded
     min_nontrivial = 50
 
     def _run_case(self, ctx: Ctx, case, lines, expect, meta, bucket):
         deps, bindings = case["deployments"], case["bindings"]
-        config = {"workflows": {"wf": {"type": "cwl", "config": {}, "bindings": copy.deepcopy(bindings)}},
+        config = {"version": "v1.0", "workflows": {"wf": {"type": "cwl", "config": {"file": "main.cwl"}, "bindings": copy.deepcopy(bindings)}},
                   "deployments": copy.deepcopy(deps), "bindingFilters": copy.deepcopy(case["filters"])}
+        # half of the configurations go through the JSON-schema validation of the StreamFlow file first (as `streamflow run`
+        # does); the validator must accept them unchanged or reject them — a rejected one is still given to the constructor
+        if zlib.crc32(repr(case).encode()) % 2 == 0:
+            try:
+                with time_limit(20):
+                    validated = _validator().validate(copy.deepcopy(config))
+                ctx.count("schema:accepted")
+                if validated != config:
+                    ctx.count("schema:normalised")
+                config = validated
+            except WorkflowDefinitionException:
+                ctx.count("schema:rejected")
+            except Hang:
+                ctx.count("schema:slow")
 
         def q(line, exp, what):
             lines.append(line)
@@ -289,17 +326,17 @@ class C28(Property):
         for b in bindings:
             kind = "step" if "step" in b else "port"
             ts = b["target"] if isinstance(b["target"], list) else [b["target"]]
-            tl = ";".join(f"{hx(t['deployment'])}:{o(t.get('workdir'))}:{t.get('locations', 1)}" for t in ts) or "~"
+            tl = ";".join(f"{hx(tdep(t))}:{o(t.get('workdir'))}:{tloc(t)}" for t in ts) or "~"
             q(f"bind {kind[0]} {'L' if isinstance(b['target'], list) else 'D'} {pp(parts_of(b[kind]))} {tl} "
               f"{pp(b.get('filters', []))}", "ok", "bind")
         # ---- real constructor ----
         try:
-            with time_limit(5):
+            with time_limit(15):
                 wc = WorkflowConfig("wf", config)
             res = "ok"
         except Hang:
             wc, res = None, "HANG"
-            ctx.fail("wraps:check-hangs", f"WorkflowConfig.__init__ did not return within 5 s on deployments {deps}", {"case": case})
+            ctx.fail("wraps:check-hangs", f"WorkflowConfig.__init__ did not return within 15 s on deployments {deps}", {"case": case})
         except Exception as e:  # noqa: BLE001
             wc, res = None, exc_kind(e)
         q("init", res, "WorkflowConfig.__init__")
@@ -317,7 +354,7 @@ class C28(Property):
             for kind, path in case["queries"]:
                 qparts = parts_of(path)
                 try:
-                    with time_limit(5):
+                    with time_limit(15):
                         bc = get_binding_config(path, kind, wc)
                     real = ";".join(f"{hx(t.deployment.name)}:{hx(norm_wd(t))}:{o(t.deployment.workdir)}:{t.locations}"
                                     for t in bc.targets) + "|" + (",".join(hx(f.name) for f in bc.filters) or "~")
@@ -329,10 +366,10 @@ class C28(Property):
                 q(f"q {kind[0]} {pp(qparts)}", real, f"get_binding_config({path!r},{kind!r})")
                 # raw propagate / get (the latter sees what set_targets materialised)
                 cfg = wc.propagate(PurePosixPath(path), kind)
-                q(f"prop {kind[0]} {pp(qparts)}", "~" if cfg is None else (",".join(str(t.get("locations", 1)) for t in cfg["targets"]) or "[]"),
+                q(f"prop {kind[0]} {pp(qparts)}", "~" if cfg is None else (",".join(str(tloc(t)) for t in cfg["targets"]) or "[]"),
                   f"propagate({path!r},{kind!r})")
                 g = wc.get(PurePosixPath(path), kind)
-                q(f"get {kind[0]} {pp(qparts)}", "~" if g is None else (",".join(str(t.get("locations", 1)) for t in g["targets"]) or "[]"),
+                q(f"get {kind[0]} {pp(qparts)}", "~" if g is None else (",".join(str(tloc(t)) for t in g["targets"]) or "[]"),
                   f"get({path!r},{kind!r})")
                 ctx.count("query:" + kind)
                 # oracle: nearest bound ancestor, declared order, workdir inheritance
@@ -341,7 +378,7 @@ class C28(Property):
                     want = [("__LOCAL__", "<localtmp>/streamflow", 1)]
                 else:
                     ts = sb["target"] if isinstance(sb["target"], list) else [sb["target"]]
-                    want = [(t["deployment"], spec_workdir(deps, t), t.get("locations", 1)) for t in ts]
+                    want = [(tdep(t), spec_workdir(deps, t), tloc(t)) for t in ts]
                 if rl is None:
                     ctx.fail("binding:raises", f"get_binding_config({path!r},{kind!r}) -> {real}", {"case": case, "query": [kind, path]})
                 elif [(a, c) for a, _, c in rl] != [(a, c) for a, _, c in want]:
@@ -363,9 +400,11 @@ class C28(Property):
         n = 1200 if ctx.tier == "quick" else 12000
         if ctx.mode == "search":
             n *= 3
-        for _ in range(n):
+        for k in range(n):
             if ctx.out_of_time():
-                ctx.extra["incomplete"] = True
+                ctx.extra["configs_run"] = k
+                if k < 250:
+                    ctx.extra["incomplete"] = True
                 break
             self._run_case(ctx, gen_case(rng, ctx.mode == "search"), lines, expect, meta, "random")
         got = ctx.lean(DRIVER, lines)
